@@ -40,6 +40,7 @@ func init() {
 			ruleArrBound(c)
 			ruleODBank(c, findReadFile(c.P))
 			ruleALOwner(c)
+			ruleALStr(c)
 		})
 }
 
@@ -85,6 +86,7 @@ func init() {
 			ruleSGReg(c)
 			ruleRegOverwrite(c)
 			ruleRegArg(c)
+			ruleDstFresh(c)
 			ruleRegPair(c)
 			rulePCReg(c)
 			rulePCNew(c)
